@@ -104,6 +104,7 @@ type binder struct {
 		k int
 	}
 	problems []string
+	missing  []string // resolvers the schema's @key directives imply and the generated Stub lacks
 }
 
 func newBinder(m *schemaModel) *binder {
@@ -239,7 +240,9 @@ func (b *binder) bind(stub any) {
 	}
 	for n := range b.byGoName {
 		if !bound[n] {
-			b.problems = append(b.problems, "schema @key implies resolver "+n+" but the Stub has none")
+			// not a reason to give up: representations of that key are sent all the same, and a
+			// server that has no resolver for them answers null where an entity is due
+			b.missing = append(b.missing, n)
 		}
 	}
 	for _, tn := range b.m.Order {
